@@ -19,7 +19,13 @@ CASES = [
     Case("gpg-signer-replaces-signatures-and-signed", "break", [(RS, "    root_signable['signatures'][raw_pubkey] = sig_dict\n", "    root_signable['signatures'][raw_pubkey] = sig_dict\n    root_signable['signed']['signed_by'] = raw_pubkey\n")], "R3|writes-only-signatures|root_signing"),
     Case("sign-signable-touches-payload", "break", [(S, "    signable['signatures'][public_key_as_hexstr] = signature_dict\n", "    signable['signatures'][public_key_as_hexstr] = signature_dict\n    signable['signed'] = dict(signable['signed'])\n")], "R3|writes-only-signatures|signing.sign_signable"),
     Case("gpg-path-writes-a-copy-only-of-signed", "break", [(RS, "    write_metadata_to_file(root_signable, root_md_fname)\n", "    write_metadata_to_file(root_signable['signed'], root_md_fname)\n")], "R3|writes-back-what-it-loaded"),
+    Case("staging-file-moved-before-it-is-written", "break", [(C_, WM_OPEN, "    import os\n    tmp = str(filename) + '.tmp'\n    with open(tmp, 'wb') as fobj:\n        os.replace(tmp, filename)\n        fobj.write(metadata)\n")], "R1|writer"),
+    Case("staging-file-moved-elsewhere", "break", [(C_, WM_OPEN, "    import os\n    tmp = str(filename) + '.tmp'\n    with open(tmp, 'wb') as fobj:\n        fobj.write(metadata)\n    os.replace(tmp, str(filename) + '.new')\n")], "R1|writer"),
+    Case("staging-file-and-truncated-target", "break", [(C_, WM_OPEN, "    import os\n    tmp = str(filename) + '.tmp'\n    open(filename, 'wb').close()\n    with open(tmp, 'wb') as fobj:\n        fobj.write(metadata)\n    os.replace(tmp, filename)\n")], "R1|writer"),
+    Case("staging-file-in-text-mode", "break", [(C_, WM_OPEN, "    import os\n    tmp = str(filename) + '.tmp'\n    with open(tmp, 'w') as fobj:\n        fobj.write(metadata.decode('utf-8'))\n    os.replace(tmp, filename)\n")], "R1|writer"),
     # ---- preserving
+    Case("writer-stages-then-renames", "keep", [(C_, WM_OPEN, "    import os\n    tmp = str(filename) + '.tmp'\n    with open(tmp, 'wb') as fobj:\n        fobj.write(metadata)\n    os.replace(tmp, filename)\n")]),
+    Case("writer-stages-with-mkstemp", "keep", [(C_, WM_OPEN, "    import os, tempfile\n    fd, tmp = tempfile.mkstemp(dir=os.path.dirname(os.path.abspath(filename)))\n    with open(fd, 'wb') as fobj:\n        fobj.write(metadata)\n    os.replace(tmp, filename)\n")]),
     Case("writer-with-explicit-handle", "keep", [(C_, WM_OPEN, "    fobj = open(filename, 'wb')\n    fobj.write(metadata)\n    fobj.close()\n")]),
     Case("writer-local-name", "keep", [(C_, WM_SER + WM_OPEN, "    data = canonserialize(metadata)\n    with open(filename, mode='wb') as out:\n        out.write(data)\n")]),
     Case("loader-returns-directly", "keep", [(C_, LM_BODY, "    with open(fname, 'rb') as fobj:\n        return load(fobj)\n")]),
